@@ -111,9 +111,18 @@ def build_calc_net(feats=()):
     if "dcline" in feats:
         pp.create_dcline(net, b[1], b[2], p_mw=0.1, loss_percent=1.0, loss_mw=0.001, vm_from_pu=1.0, vm_to_pu=1.0,
                          max_p_mw=0.5, min_q_from_mvar=-0.5, max_q_from_mvar=0.5, min_q_to_mvar=-0.5, max_q_to_mvar=0.5)
+    if "ideal" in feats:
+        # an ideal phase shifter b1 -> b2 defined by tap_step_degree only (tap_step_percent stays NaN); the first
+        # transformer has no tap_step_degree (NaN): the user's NaN cells must survive every calculation
+        pp.create_transformer_from_parameters(
+            net, b[1], b[2], sn_mva=5.0, vn_hv_kv=20.0, vn_lv_kv=20.0, vkr_percent=0.5, vk_percent=8.0, pfe_kw=1.0,
+            i0_percent=0.1, shift_degree=0.0, vector_group="YNyn", vk0_percent=8.0, vkr0_percent=0.5, mag0_percent=100.0,
+            mag0_rx=0.0, si0_hv_partial=0.9, tap_side="hv", tap_neutral=0, tap_min=-2, tap_max=2, tap_step_degree=2.0,
+            tap_pos=1, tap_changer_type="Ideal", max_loading_percent=100.)
     if "taptable" in feats:
         net["trafo_characteristic_table"] = char_table({0: [-2, -1, 0, 1, 2]})
         net.trafo["id_characteristic_table"] = net.trafo["id_characteristic_table"].astype("Int64")
         net.trafo.loc[0, "id_characteristic_table"] = 0
-        net.trafo["tap_dependency_table"] = True
+        net.trafo["tap_dependency_table"] = False
+        net.trafo.loc[0, "tap_dependency_table"] = True
     return net
